@@ -25,7 +25,7 @@ static uint32_t ps_base;         /* medium address of its first octet */
 static size_t ps_len;
 static struct ps_access ps_log[PS_MAXLOG];
 static size_t ps_nlog;
-static unsigned char ps_wdata[1 << 16];
+static unsigned char ps_wdata[1 << 18];
 static size_t ps_nwdata;
 static int ps_outside;           /* an access left the region */
 static unsigned ps_calls, ps_call_bound;
